@@ -134,7 +134,10 @@ class SimulatedExecutionEnvironment(ExecutionEnvironment):
         symbol_to_fnode = {}
         cnt = 0
         for hf in problem.hidden_fluents:
-            if not hf.is_not():
+            # a hidden fluent may only occur negated in the constraints
+            if hf.is_not():
+                hf = hf.arg(0)
+            if hf not in fnode_to_symbol:
                 s = Symbol(f"v_{cnt}")
                 fnode_to_symbol[hf] = s
                 symbol_to_fnode[s] = hf
